@@ -40,8 +40,12 @@ int main(int argc, char** argv) {
         "r3k2r/8/8/8/8/8/8/R3K2R w KQkq - 95 40", "3k4/8/8/8/3p4/8/4P3/3R2K1 w - - 0 1", "8/8/8/3k4/8/3KB3/8/8 w - - 0 1",
         "8/8/4b3/3k4/8/3KB3/8/8 w - - 0 1", "8/8/4n3/3k4/8/3KB3/8/8 w - - 0 1", "6k1/5ppp/8/8/8/8/5PPP/4R1K1 w - - 0 1",
         "7k/5Q2/6K1/8/8/8/8/8 w - - 98 70", "8/8/8/8/8/5k2/4q3/7K b - - 3 9", "k7/8/1K6/8/8/8/8/6Q1 w - - 99 80",
-        "8/2p5/3p4/KP5r/1R3p1k/8/4P1P1/8 w - - 0 1", "rnbqkbnr/pppppppp/8/8/8/8/PPPPPPPP/RNBQKBNR w KQkq - 0 1"
+        "8/2p5/3p4/KP5r/1R3p1k/8/4P1P1/8 w - - 0 1", "rnbqkbnr/pppppppp/8/8/8/8/PPPPPPPP/RNBQKBNR w KQkq - 0 1",
+        // clock close to 100 with captures, pawn moves and castling available (claims accompanied by a zeroing move)
+        "4k3/8/8/3n4/4N3/8/3q4/3QK3 w - - 98 60", "r1bqk2r/pppp1ppp/2n2n2/2b1p3/2B1P3/2N2N2/PPPP1PPP/R1BQK2R w KQkq - 97 50",
+        "r3k2r/p6p/8/3Nn3/8/8/P6P/R3K2R b KQkq - 98 70", "6k1/5ppp/8/2b5/8/4B3/5PPP/6K1 w - - 99 90", "8/3k4/8/2pP4/8/8/3K4/8 w - c6 0 50"
     };
+    const int nSetFens = (int)(sizeof(setFens) / sizeof(setFens[0]));
     for (int gno = 0; gno < nGames; gno++) {
         std::ofstream os(prefix + "." + std::to_string(gno % nFiles) + ".ndjson", std::ios::app);
         std::cout.rdbuf(sink.rdbuf());
@@ -51,7 +55,7 @@ int main(int argc, char** argv) {
         int n = 20 + rnd.nextInt(140);
         std::vector<Move> recent;     // moves made, to build shuffles
         if (rnd.nextInt(3) != 0) {
-            std::string fen = setFens[rnd.nextInt(14)];
+            std::string fen = setFens[rnd.nextInt(nSetFens)];
             bool ok = game.processString("setpos " + fen);
             Position p = TextIO::readFEN(fen);
             c.log("setpos", ",\"fen\":\"" + fen + "\",\"raw\":{" + posFieldsJ(p) + "}", ok);
@@ -79,7 +83,19 @@ int main(int argc, char** argv) {
                 return ml[rnd.nextInt(ml.size)];
             };
             auto mstr = [&](const Move& m) { return TextIO::moveToString(pos, m, true); };
+            // a move that resets the clock or is otherwise special (captures by pieces and pawns, pawn moves, castling, promotions)
+            auto pickSpecial = [&]() -> Move {
+                std::vector<Move> sp;
+                for (int k = 0; k < ml.size; k++) {
+                    int p = pos.getPiece(ml[k].from());
+                    bool pawn = p == Piece::WPAWN || p == Piece::BPAWN;
+                    bool king2 = (p == Piece::WKING || p == Piece::BKING) && std::abs(ml[k].to().asInt() - ml[k].from().asInt()) == 2;
+                    if (pawn || king2 || pos.getPiece(ml[k].to()) != Piece::EMPTY) sp.push_back(ml[k]);
+                }
+                return sp.empty() ? pickMove() : sp[rnd.nextInt((int)sp.size())];
+            };
             if (ml.size == 0) act = 70 + rnd.nextInt(30);       // game over by position: only commands make sense
+            else if (pos.getHalfMoveClock() >= 94 && rnd.nextInt(3) == 0) act = 58;     // near the 50-move boundary claims are frequent
             if (act < 58) {
                 Move m = pickMove();
                 bool ok = game.processString(mstr(m));
@@ -87,7 +103,8 @@ int main(int argc, char** argv) {
                 if (ok) recent.push_back(m);
             } else if (act < 66) {
                 bool rep = rnd.nextInt(2) == 0, hasM = rnd.nextInt(3) != 0 && ml.size > 0;
-                Move m = hasM ? pickMove() : Move();
+                if (pos.getHalfMoveClock() >= 94 && rnd.nextInt(4) != 0) rep = false;
+                Move m = hasM ? (rnd.nextInt(2) == 0 ? pickSpecial() : pickMove()) : Move();
                 std::string cmd = std::string("draw ") + (rep ? "rep" : "50") + (hasM ? " " + mstr(m) : "");
                 int before = (int)game.getGameState();
                 bool ok = game.processString(cmd);
